@@ -115,6 +115,14 @@ impl<'de> serde::Deserialize<'de> for DX {
     }
 }
 type RX = Registry!(DX, DS, DT);
+/// a fourth component, so that a table can have TWO fully built columns in front of a failing one
+pub struct DQ(u32);
+impl<'de> serde::Deserialize<'de> for DQ {
+    fn deserialize<D: Deserializer<'de>>(d: D) -> Result<Self, D::Error> {
+        Ok(DQ(d.deserialize_u64(U64Visitor)? as u32))
+    }
+}
+type R4 = Registry!(DX, DS, DT, DQ);
 
 // ------------------------------------------------------------------ nondeterministic deserializer
 static mut CALLS: usize = 0;
@@ -294,6 +302,38 @@ fn deser_arch_by_column_leading_component_absent() {
     }
 }
 by_column!(deser_arch_by_column_len2, 2);
+
+/// column-wise, table {DS, DT, DQ} of registry (DX, DS, DT, DQ): when the third column fails, the
+/// cleanup must release the two built columns each as a Vec of ITS component (walking the built
+/// columns alongside the identifier bits; the leading clear bit consumes no column).  Releasing a
+/// column with another component's layout fails CBMC's dealloc-size check; dropping DT values as
+/// another type skips their Drop (the ledger would show them live, which is not asserted on Err).
+#[kani::proof]
+#[kani::unwind(6)]
+#[kani::stub(alloc::fmt::format, stub_format)]
+#[kani::stub(core::any::type_name, stub_type_name)]
+fn deser_arch_by_column_two_built_columns_then_failure() {
+    unsafe { NO_NONE_AT = [1 + 3 * 1, 2 + 4 * 1, 3 + 5 * 1, usize::MAX] };
+    let seed = DeserializeColumns::<R4> {
+        lifetime: PhantomData,
+        identifier: unsafe { Identifier::<R4>::new(vec![0b1110]) },
+        length: 1,
+    };
+    match seed.deserialize(NDe) {
+        Ok(a) => {
+            assert!(a.length == 1 && a.components.len() == 3);
+            let col_t = a.components[1].0 as *const DT;
+            unsafe { assert!(LEDGER[(*col_t).id] == 1, "C11/C05: second built column holds the tracked component") };
+            drop(a);
+            let mut i = 0;
+            while i < unsafe { NEXT } {
+                assert!(unsafe { LEDGER[i] } == 2, "C04: dropping the deserialized table drops each value once");
+                i += 1;
+            }
+        }
+        Err(_) => {}
+    }
+}
 by_row!(deser_arch_by_row_len0, 0);
 by_row!(deser_arch_by_row_len1, 1);
 by_row!(deser_arch_by_row_len2, 2);
